@@ -31,11 +31,6 @@ func main() {
 		runtime.GOMAXPROCS(procs)
 		for r := 0; r < reps; r++ {
 			for _, t := range tmpl.All() {
-				if strings.HasPrefix(t.Name, "T11b") {
-					// the goroutine of this template panics on the pinned tree (listed finding): free-running, an
-					// unrecovered panic in a goroutine would kill the whole race pass
-					continue
-				}
 				if strings.Contains(t.Name, "form=method") {
 					// go wk.run(...) reads its receiver late on the pinned tree (listed finding of the exploration pass): the
 					// resulting race with the parent's reassignment would be reported under varying writer functions
